@@ -142,13 +142,38 @@ func (ex *Exec) callCommon(fr *frame, c *ssa.CallCommon, site ssa.Instruction, g
 	if len(callee.Blocks) > 0 && bindings != nil {
 		return ex.inline(callee, args, bindings, g, s)
 	}
+	setRes := func(v Val) Val {
+		if ex.traceOn && len(ex.trace) > 0 && ex.trace[len(ex.trace)-1].Instr == site {
+			vv := v
+			ex.trace[len(ex.trace)-1].Res = &vv
+		}
+		return v
+	}
+	if name == "fmt.Errorf" {
+		// constant format containing %w: the result wraps the operand at that verb's position (assumed contract of fmt)
+		r := ex.freshResult(callee.Signature.Results(), s, g)
+		u.fact(implies(g, not(eq(r.T, nilIface))))
+		if call, ok := site.(*ssa.Call); ok {
+			if fc, ok := call.Call.Args[0].(*ssa.Const); ok {
+				if k := verbIndex(constantStringVal(fc), 'w'); k >= 0 && len(args) > 1 {
+					u.declareFun("spec$wraps", []string{SIface, SIface}, SBool)
+					key := "A$iface"
+					u.keySort(key, arr2(SIface))
+					elem := sel(sel(u.get(s, key), sArr(args[1].T)), cellIdx(sOff(args[1].T), intLit(int64(k))))
+					u.fact(implies(g, app("spec$wraps", r.T, elem)))
+				}
+			}
+		}
+		u.assume("fmt.Errorf with a constant format containing %w wraps that operand")
+		return g, setRes(r)
+	}
 	if isPureExternal(strings.TrimPrefix(name, "(*")) || isPureExternal(name) {
 		u.assume("external " + name + " is pure: result unconstrained, heap unchanged")
-		return g, ex.freshResult(callee.Signature.Results(), s, g)
+		return g, setRes(ex.freshResult(callee.Signature.Results(), s, g))
 	}
 	ex.warn("external call %s abstracted (result and heap havoced)", name)
 	ex.havocAll(s)
-	return g, ex.freshResult(callee.Signature.Results(), s, g)
+	return g, setRes(ex.freshResult(callee.Signature.Results(), s, g))
 }
 
 func (ex *Exec) inRepo(fn *ssa.Function) bool {
@@ -549,6 +574,8 @@ func (ex *Exec) havocModifies(fc *FuncContract, env *SpecEnv, s *State, g string
 	u.fact(implies(g, app(">=", nn, oldNext)))
 	u.fact(implies(g, app(">=", nn, smtName("next"))))
 	if !fc.HasMod {
+		// no modifies clause: nothing is known about the callee's writes
+		ex.havocAll(s)
 		return
 	}
 	for _, it := range fc.Modifies {
@@ -875,4 +902,29 @@ func (ex *Exec) allButKeys(it string, env *SpecEnv) ([]string, bool) {
 	}
 	sort.Strings(out)
 	return out, true
+}
+
+// verbIndex: position (among the operands) of the first %<verb> in a format string, or -1.
+func verbIndex(format string, verb byte) int {
+	k := 0
+	for i := 0; i < len(format); i++ {
+		if format[i] != '%' {
+			continue
+		}
+		i++
+		for i < len(format) && strings.IndexByte("+-# 0123456789.[]*", format[i]) >= 0 {
+			i++
+		}
+		if i >= len(format) {
+			break
+		}
+		if format[i] == '%' {
+			continue
+		}
+		if format[i] == verb {
+			return k
+		}
+		k++
+	}
+	return -1
 }
